@@ -11,6 +11,7 @@ Not decided: that the explicit-stack traversal is a pre-order of every tree shap
 import re
 from absint import Interp, ADT, SYM, C, UNK, NONE, fmt, Budget, is_adt, Stop
 from mirlib import path_endswith, callee_matches
+from rules.treepaths import is_true
 
 EXPLANATION = ('closure tables: each iterator filter closure is abstractly evaluated for all 32 operator variants; expectation from the method name; '
                'sibling cross-check of the two traversals by lock-step CFG comparison; who-may-construct rule for the not-found errors. '
@@ -157,6 +158,11 @@ def run(ctx):
     # text of the target (the C04 R4.4 case analysis with a symbolic target name: one outcome per case, the name only handed to the context)
     from rules.c04 import r44
     r44(_Renamed(ctx, 'R14.7'), prog)
+    # R14.8 which identifier occurrences are functions is decided at parse time by the token that follows; the C09 R9.5 classification
+    # (decided against the specification: a function in front of `(`, a literal of any type or another identifier, a variable
+    # otherwise) is reported here too - an occurrence classified differently is listed by the wrong iterator or not at all
+    from rules.c09 import r95
+    r95(_Renamed(ctx, 'R14.8'), prog)
 
 
 def r14_5(ctx, prog):
@@ -234,13 +240,24 @@ def r14_5(ctx, prog):
                 else:
                     bad.append('the loop continues without popping exactly the exhausted iterator (pops %d, pushes %d)' % (len(pops), len(pushes)))
             elif is_adt(ret, 'option::Option', 'Some'):
-                okk = bool(top_some) and all(t_ == C(1) for t_ in top_some) and len(inner) == 1 and inner[0][1] == C(1) and len(pushes) == 1 and not pops
+                okk = bool(top_some) and all(t_ == C(1) for t_ in top_some) and len(inner) == 1 and inner[0][1] == C(1) and len(pushes) <= 1 and not pops
                 if okk:
                     n = ('proj', inner[0][0][2][0], ('as Some', '0'))
                     want_ret = n if proj is None else ('proj', n[1], n[2] + (proj,))
-                    pushed = pushes[0][1]
                     children = ('proj', n[1], n[2] + ('children',))
-                    okk = ret[4][0] == want_ret and pushed[0] == 'app' and pushed[1].split('::')[-1].split('#')[0] in ('iter', 'iter_mut') and pushed[2] == (children,)
+                    if pushes:
+                        pushed = pushes[0][1]
+                        okk = ret[4][0] == want_ret and pushed[0] == 'app' and pushed[1].split('::')[-1].split('#')[0] in ('iter', 'iter_mut') and pushed[2] == (children,)
+                    else:
+                        # nothing is pushed for a node the path has shown to have no children (an iterator over an empty list would be
+                        # popped again at the next step without yielding anything)
+                        def no_children(v, t):
+                            if v[0] == 'app' and v[1].split('::')[-1].split('#')[0] == 'is_empty' and v[2] == (children,):
+                                return is_true(t)
+                            if v[0] == 'app' and v[1] in ('binop:Eq', 'binop:Ne') and any(x_[0] == 'app' and x_[1].split('::')[-1].split('#')[0] == 'len' and x_[2] == (children,) for x_ in v[2]) and C(0) in v[2]:
+                                return is_true(t) if v[1] == 'binop:Eq' else t == C(0)
+                            return False
+                        okk = ret[4][0] == want_ret and any(no_children(v, t) for v, t in br)
                     # the yielded node comes from the iterator on top of the stack
                     okk = okk and inner[0][0][2][0][2] == (('proj', top[0][2][0], ('as Some', '0')),)
                 if okk:
@@ -249,7 +266,7 @@ def r14_5(ctx, prog):
                     bad.append('a node is yielded without pushing exactly its own children iterator (returns %s, pushes %s)' % (fmt(ret)[:80], [fmt(a[1])[:80] for a in pushes]))
             else:
                 bad.append('unexpected outcome %s' % fmt(ret)[:80])
-        good = not bad and shapes == {'none': 1, 'yield': 1, 'pop': 1}
+        good = not bad and shapes['none'] >= 1 and shapes['yield'] >= 1 and shapes['pop'] >= 1
         ctx.check(good, 'R14.5', tyname + '::next', 'traversal-step', 'one step of the traversal is: empty stack => None; top yields n => push n.children, return n; top exhausted => pop and continue (shapes %s; problems %s)' % (shapes, bad[:2]), span=f.span)
         it = Interp(prog)
         it.tyenv.append(tenv)
